@@ -69,6 +69,10 @@ pub struct C10Plan {
     /// by another tool, with the frame in upper-case hexadecimal
     #[serde(default)]
     pub upper_rx: Option<u8>,
+    /// every sender goes away right after the last reception (and the flush
+    /// arrival): the sources have ended while the consumer may still be stalled
+    #[serde(default)]
+    pub close_input_early: bool,
 }
 
 pub struct C10;
@@ -328,6 +332,7 @@ impl Scenario for C10 {
             junk: Vec::new(),
             legacy: false,
             upper_rx: None,
+            close_input_early: rng.chance(0.25),
         }
     }
 
@@ -584,6 +589,7 @@ pub fn execute(plan: &C10Plan) -> Outcome<C10Plan> {
         let sh = shared.clone();
         let max_ts = plan.receptions.iter().map(|r| r.ts_us).max().unwrap_or(0);
         let flush = plan.flush;
+        let close_early = plan.close_input_early;
         let w = plan.window_ms as u64;
         let n_prod = n_prod as u32;
         let txf = tx;
@@ -619,7 +625,11 @@ pub fn execute(plan: &C10Plan) -> Outcome<C10Plan> {
             // keep the input open until the system is otherwise idle: closing
             // it ends dedup, which (legitimately) drops the groups still open
             sh.borrow_mut().t_mark_ns = exec::now_ns();
-            exec::sleep_ns(3_600_000_000_000).await;
+            if !close_early {
+                exec::sleep_ns(3_600_000_000_000).await;
+            }
+            // (dedup's loop ends; whatever window had been closed by an arrival
+            // must nevertheless reach the consumer)
             drop(txf);
         });
     }
@@ -1551,6 +1561,7 @@ fn grid_history(len_max: u8, g: u64) -> C10Plan {
         junk: Vec::new(),
         legacy: false,
         upper_rx: None,
+        close_input_early: false,
     }
 }
 
